@@ -188,4 +188,89 @@ def secondsViaFloat (d : Int) : Int :=
   F64.toInt64 (F64.add (F64.ofInt (Int.tdiv d 1000000000))
     (F64.div (F64.ofInt (Int.tmod d 1000000000)) (F64.ofInt 1000000000)))
 
+/-! ## range of the result, signs -/
+
+theorem parseDurLoop_le (fuel : Nat) : ∀ (s : Bytes) (d r : Nat), d ≤ 9223372036854775808 →
+    parseDurLoop fuel s d = some r → r ≤ 9223372036854775808 := by
+  induction fuel with
+  | zero => intro s d r _ h; simp [parseDurLoop] at h
+  | succ n ih =>
+    intro s d r hd h
+    unfold parseDurLoop at h
+    split at h
+    · cases h; exact hd
+    · split at h
+      · cases h
+      · split at h
+        · cases h
+        · simp only at h
+          repeat' split at h
+          all_goals first | (cases h; done) | skip
+          all_goals (rename_i hle; exact ih _ _ _ (by omega) h)
+
+/-- Every duration `ParseDuration` returns is an int64 nanosecond count. -/
+theorem parseDuration_range (s : Bytes) (d : Int) (h : parseDuration s = .ok d) :
+    -9223372036854775808 ≤ d ∧ d ≤ 9223372036854775807 := by
+  unfold parseDuration at h
+  split at h
+  next neg s1 _ =>
+    split at h
+    · cases h; omega
+    · split at h
+      · cases h
+      · split at h
+        · cases h
+        · next r hr =>
+          have := parseDurLoop_le _ _ _ _ (by omega) hr
+          split at h
+          · cases h; omega
+          · split at h
+            · cases h
+            · cases h; omega
+
+/-- `ParseDuration` after the sign has been consumed. -/
+def durCore (neg : Bool) (s1 : Bytes) : DurRes :=
+  if s1 = [48] then .ok 0
+  else if s1 = [] then .err
+  else match parseDurLoop (s1.length + 1) s1 0 with
+    | none => .err
+    | some d =>
+      if neg then .ok (-(d : Int))
+      else if d > 9223372036854775807 then .err else .ok d
+
+theorem parseDuration_minus (r : Bytes) : parseDuration (45 :: r) = durCore true r := rfl
+theorem parseDuration_plus (r : Bytes) : parseDuration (43 :: r) = durCore false r := rfl
+theorem parseDuration_nosign (c : UInt8) (r : Bytes) (hc : c ≠ 43 ∧ c ≠ 45) :
+    parseDuration (c :: r) = durCore false (c :: r) := by
+  unfold parseDuration durCore
+  split
+  next neg s1 heq =>
+    split at heq
+    · next r' h' => exact absurd (List.cons.inj h').1 hc.2
+    · next r' h' => exact absurd (List.cons.inj h').1 hc.1
+    · cases heq; rfl
+
+/-- A sign in front: `-x` is the negation, `+x` the same (for a text `x` without a sign of its own). -/
+theorem parseDuration_sign (c : UInt8) (r : Bytes) (d : Int) (hc : c ≠ 43 ∧ c ≠ 45)
+    (h : parseDuration (c :: r) = .ok d) :
+    parseDuration (45 :: c :: r) = .ok (-d) ∧ parseDuration (43 :: c :: r) = .ok d := by
+  rw [parseDuration_nosign c r hc] at h
+  rw [parseDuration_minus, parseDuration_plus]
+  refine ⟨?_, h⟩
+  unfold durCore at h ⊢
+  split at h
+  · next h0 => cases h; simp [h0]
+  · next h0 =>
+    split at h
+    · cases h
+    · next h1 =>
+      simp only [h0, h1, if_false]
+      split at h
+      · cases h
+      · next v hv =>
+        simp only [Bool.false_eq_true, if_false] at h
+        split at h
+        · cases h
+        · cases h; simp
+
 end Rare.C18
